@@ -709,6 +709,9 @@ class Interp:
                                     loc = ('dict', self.this, loc[1])       # the callee runs with its own `this`
                                 args[i_] = ('lref', loc)
             this = self.record_of(objv)
+            if objv == 0 and this is None and 'obj' in st:
+                self.fault(f, st, 'a member function (%s) is called through a null pointer' % name)
+                raise _Abort()
             if objv is not None and this is None:
                 raise AnalysisBroken('%s: member call %s on an object the replay does not hold (%s)' % (f.short, name, f.loc(st['i'])))
             if st['k'] == 'CXXOperatorCallExpr' and 'obj' not in st and len(args) == len(g.params) + 1:
